@@ -27,7 +27,8 @@
 
     The repaired tree is modelled (see known_findings.d/C16.json): gen_members_parent declares
     the interface prefix it uses on the element that carries xsi:type and the namespace clean-up
-    keeps it; from_element refuses an xsi:type that is not a subclass of the declared type.
+    keeps it; from_element lets _get_xsi_target decide what an xsi:type may stand for (the declared
+    type itself, or a subclass of a declared user class).
     [xshape] carries the handful of source facts that decide the property (statement order,
     one comparison, one guard); harness/translate/c16shape.py regenerates it from the source. *)
 From SpyneV Require Export Base.Prelude Wire.Universe Wire.Xml.
@@ -45,7 +46,7 @@ Record xshape := mkshape {
   sh_sub_same_ns : bool;          (* add_class: subclasses are added iff child_ns == ns *)
   sh_type_decl : bool;            (* gen_members_parent: nsmap={prefix: ns} beside attrib[XSI_TYPE] *)
   sh_type_keep : bool;            (* _cleanup_namespaces keeps the prefixes used in xsi:type values *)
-  sh_xsi_guard : bool;            (* from_element: `if not self.issubclass(newclass, cls): raise ValidationError` *)
+  sh_xsi_guard : bool;            (* from_element: cls = self._get_xsi_target(cls, newclass, xsi_type) *)
   sh_memberless_base : bool;      (* _get_type_info: a base without members of its own is kept as __extends__ when it
                                      extends a class itself (the parent links of the universe are __extends__) *)
   sh_soap_inplace : bool          (* Soap11.serialize creates Header and Body as SubElements of the envelope and fills them
@@ -245,16 +246,41 @@ Section Iface.
     fold_opt (fun r c => add_ty fuel (TRef c) true r) roots [].
 End Iface.
 
-(** ProtocolBase.issubclass(newclass, cls) on the __orig__s: Array(X) classes all have
-    __orig__ = Array *)
+(** XmlDocument._get_xsi_target(cls, newclass, xsi_type) as a decision over five facts about the
+    declared class and the registered class the marker names (sup / sub are their __orig__s):
+    None = ValidationError, Some false = keep the DECLARED class (with its customisation),
+    Some true = take the registered class.  harness/translate/c16shape.py regenerates this
+    function from the source as [xsi_target_src]; Props/C16.v proves the two equal. *)
+Definition xsi_decide (same_orig sup_array same_key sup_complex sub_of : bool) : option bool :=
+  if same_orig then (if sup_array && negb same_key then None else Some false)
+  else if negb sup_complex || sup_array || negb sub_of then None else Some true.
+
 Definition prim_eqb (p q : prim) : bool :=
   match p, q with PInt, PInt | PText, PText | PBool, PBool => true | _, _ => false end.
-Definition xsi_guard (U : universe) (decl new : ty) : bool :=
-  match decl, new with
-  | TRef c, TRef c' => is_subclass U c' c
-  | TPrim p, TPrim q => prim_eqb p q
-  | TArr _, TArr _ => true
-  | _, _ => false
+
+(** the five facts for modelled types: Integer / Unicode / Boolean are unrelated classes; every
+    Array(X) class has __orig__ = Array (a ComplexModelBase subclass), so two array types have
+    the same origin and are told apart by namespace and type name; user classes are related by
+    Python subclassing *)
+Definition xsi_target (U : universe) (tns : text) (decl new : ty) : option ty :=
+  let same_orig := match decl, new with
+                   | TPrim p, TPrim q => prim_eqb p q
+                   | TRef c, TRef c' => Nat.eqb c c'
+                   | TArr _, TArr _ => true
+                   | _, _ => false
+                   end in
+  let sup_array := match decl with TArr _ => true | _ => false end in
+  let same_key := rkey_eqb (key_of U tns decl) (key_of U tns new) in
+  let sup_complex := match decl with TPrim _ => false | _ => true end in
+  let sub_of := match decl, new with
+                | TRef c, TRef c' => is_subclass U c' c
+                | TArr _, TArr _ => true
+                | _, _ => false
+                end in
+  match xsi_decide same_orig sup_array same_key sup_complex sub_of with
+  | None => None
+  | Some false => Some decl
+  | Some true => Some new
   end.
 
 (* ------------------------------------------------------------------ 5. XML with namespace scopes *)
@@ -369,19 +395,22 @@ Section XmlPoly.
         end
     end.
 
-  (** the xsi:type hook of from_element: the class used from here on and whether it was replaced
-      (the replacement is the registered class object, whose own Attributes are the defaults) *)
-  Definition retarget (sc : scope) (atts : list attr) (t : ty) : out (ty * bool) :=
-    if negb (p_parse_xsi C) then Ok (t, false)
+  (** the xsi:type hook of from_element: the class used from here on.  With the helper in place
+      (sh_xsi_guard) the decision is _get_xsi_target's; without it the registered class is taken as is. *)
+  Definition retarget (sc : scope) (atts : list attr) (t : ty) : out ty :=
+    if negb (p_parse_xsi C) then Ok t
     else match lookup_att xsi_ns t_type atts with
-         | None => Ok (t, false)
+         | None => Ok t
          | Some q =>
              match resolve_qname sc q with
              | None => VFault                                              (* prefix not in nsmap *)
              | Some key =>
                  match reg_find (p_reg C) key with
                  | None => VFault                                          (* not in interface.classes *)
-                 | Some t' => if sh_xsi_guard S0 && negb (xsi_guard U t t') then VFault else Ok (t', true)
+                 | Some t' =>
+                     if sh_xsi_guard S0
+                     then match xsi_target U (p_tns C) t t' with Some t'' => Ok t'' | None => VFault end
+                     else Ok t'
                  end
              end
          end.
@@ -399,13 +428,12 @@ Section XmlPoly.
             if is_nil atts then
               (if p_soft C && negb nillable then VFault else Ok VNone)
             else
-              do tr <- retarget sc' atts t;
-              let nillable' := snd tr || nillable in
-              (* soft validation of a primitive: ModelBase.validate_string = nillable or text is not None *)
-              let text_ok := negb (p_soft C) || nillable' || match txt with Some _ => true | None => false end in
-              match fst tr with
-              | TPrim PText =>                                             (* unicode_from_element *)
-                  if negb text_ok then VFault else
+              do t' <- retarget sc' atts t;
+              (* soft validation of a primitive: ModelBase.validate_string = nillable or text is not None;
+                 a primitive is never replaced by the registered class, so the nillable is the declared one *)
+              let text_ok := negb (p_soft C) || nillable || match txt with Some _ => true | None => false end in
+              match t' with
+              | TPrim PText =>                                             (* unicode_from_element: no text is '' *)
                   do v <- lc_rd L PText (match txt with None => [] | Some s => s end); Ok (VLeaf v)
               | TPrim p =>                                                 (* base_from_element *)
                   if negb text_ok then VFault else
@@ -586,14 +614,14 @@ Section Hier.
             end
         | TArr e =>
             match j with
-            | JNull => Ok (VList [])                         (* if doc is None: return [] *)
+            | JNull => Ok VNone                              (* _from_dict_value: a null member is None *)
             | JList l => do vs <- mapM (h_dec k e) l; Ok (VList vs)
             | JMap _ | JStr _ => Crash OtherExn              (* iterable, element-wise junk: outside the model *)
             | _ => VFault                                    (* not isinstance(doc, AbcIterable) *)
             end
         | TRef c =>
             match j with
-            | JNull => Ok (VList [])                         (* if doc is None: return [] *)
+            | JNull => Ok VNone                              (* _from_dict_value: a null member is None *)
             | JMap [] => Ok VNone                            (* len(doc) == 0 *)
             | JMap [(class_name, inner)] =>
                 do c' <- h_select c class_name;
@@ -731,9 +759,9 @@ Section HVocab.
 
   Definition is_prim (t : ty) : bool := match t with TPrim _ => true | _ => false end.
 
-  (** one member of a dict document: an explicit null is written only for min_occurs > 0 and is
-      read back as None only where a primitive is declared (a null complex member reads as [],
-      a null max_occurs>1 member is not iterable): those are outside the conformant values *)
+  (** one member of a dict document: an explicit null is written only for min_occurs > 0; a null
+      max_occurs>1 member is not iterable, and a None where a class or an array is declared is kept
+      out of the conformant values (inside a list it would be written as an empty object) *)
   Definition hfield_conf (rec : ty -> val -> bool) (f : field) (x : val) : bool :=
     match x with
     | VNone => if 0 <? f_min f then negb (is_multi f) && rec (f_ty f) VNone else true
